@@ -135,7 +135,7 @@ impl Tr {
         }
     }
 
-    fn walk_stmt(&mut self, cx: &mut FnCtx, s: &Stmt) -> Vec<Node> {
+    pub fn walk_stmt(&mut self, cx: &mut FnCtx, s: &Stmt) -> Vec<Node> {
         match s {
             Stmt::Local(l) => {
                 let mut out = vec![];
@@ -144,6 +144,8 @@ impl Tr {
                     // let-bound closure = local function
                     if let (Expr::Closure(c), Pat::Ident(pi)) = (strip(&init.expr), &l.pat) {
                         let body = self.walk_closure_fn(cx, c, &pi.ident.to_string());
+                        let pubs: Vec<bool> = c.inputs.iter().map(|p| matches!(p, Pat::Type(t) if PRIMS.contains(&squash(&t.ty).as_str()))).collect();
+                        cx.closure_pub_params.insert(pi.ident.to_string(), pubs);
                         cx.bind_pat(&l.pat, false);
                         cx.closures.last_mut().unwrap().insert(pi.ident.to_string(), body);
                         return out;
@@ -186,7 +188,9 @@ impl Tr {
     fn walk_closure_fn(&mut self, cx: &mut FnCtx, c: &ExprClosure, name: &str) -> Vec<Node> {
         cx.push_scope();
         for p in &c.inputs {
-            cx.bind_pat(p, false);
+            // allow-rule CLOSURE-PARAM: a parameter annotated with a primitive integer type is assumed public; every call is checked
+            let public = matches!(p, Pat::Type(t) if PRIMS.contains(&squash(&t.ty).as_str()));
+            cx.bind_pat(p, public);
         }
         let saved = cx.loops.clone();
         cx.loops.clear();
@@ -243,7 +247,7 @@ impl Tr {
 
     // ---------------------------------------------------------------- iterators
     /// classify an iterator expression.  `allow_place`: a plain place expression counts as a container (for-loop base, zip arg)
-    fn analyse_iter<'a>(&mut self, cx: &mut FnCtx, e: &'a Expr, allow_place: bool, nodes: &mut Vec<Node>, pending: &mut Vec<Pending<'a>>) -> Option<IterInfo> {
+    pub fn analyse_iter<'a>(&mut self, cx: &mut FnCtx, e: &'a Expr, allow_place: bool, nodes: &mut Vec<Node>, pending: &mut Vec<Pending<'a>>) -> Option<IterInfo> {
         match e {
             Expr::Paren(p) => self.analyse_iter(cx, &p.expr, allow_place, nodes, pending),
             Expr::Group(g) => self.analyse_iter(cx, &g.expr, allow_place, nodes, pending),
@@ -459,7 +463,7 @@ impl Tr {
         if public { Node::LoopPub { id, body } } else { Node::LoopSec { id, body } }
     }
 
-    fn flush_pending(&mut self, cx: &mut FnCtx, pending: Vec<Pending>, info: &IterInfo, out: &mut Vec<Node>) {
+    pub fn flush_pending(&mut self, cx: &mut FnCtx, pending: Vec<Pending>, info: &IterInfo, out: &mut Vec<Node>) {
         for p in pending {
             let n = self.closure_loop(cx, p.cl, info.public, p.elem_public, p.enum_outer, p.is_range, &info.trip, &info.why, &p.method, 0);
             out.push(n);
@@ -591,7 +595,7 @@ impl Tr {
     pub fn walk_expr(&mut self, cx: &mut FnCtx, e: &Expr) -> Vec<Node> {
         let mut out = vec![];
         match e {
-            Expr::Lit(_) | Expr::Path(_) | Expr::Infer(_) | Expr::Continue(_) if !matches!(e, Expr::Continue(_)) => {}
+            Expr::Lit(_) | Expr::Path(_) | Expr::Infer(_) => {}
             Expr::Continue(_) | Expr::Break(_) => {
                 if let Expr::Break(b) = e {
                     if let Some(x) = &b.expr {
@@ -1039,6 +1043,13 @@ impl Tr {
         // let-bound closure
         if !fname.contains("::") {
             if let Some(body) = cx.lookup_closure(&fname).cloned() {
+                if let Some(pubs) = cx.closure_pub_params.get(&fname).cloned() {
+                    for (k, p) in pubs.iter().enumerate() {
+                        if *p && args.get(k).map_or(false, |a| !cx.is_pub(a)) {
+                            out.push(Node::SecArg(format!("closure {fname}: secret argument for primitive-typed parameter {k}"), wh.clone()));
+                        }
+                    }
+                }
                 out.push(Node::CallInline { name: format!("closure {fname}"), body });
                 return out;
             }
@@ -1055,8 +1066,8 @@ impl Tr {
         if self.vartime_name(last) && any_secret {
             out.push(Node::ExtVartime(fname, wh));
         } else {
-            if self.repo_fn_names.contains(last) {
-                let s = format!("call `{fname}` at {wh} treated as external although a repo fn named `{last}` exists (no path match)");
+            if self.repo_fn_names.contains(last) && !fname.contains("::") {
+                let s = format!("{}: call `{fname}` treated as external although a repo fn named `{last}` exists (no unique path match)", cx.op);
                 self.note(cx, s);
             }
             out.push(Node::Ext(fname));
@@ -1204,7 +1215,7 @@ impl Tr {
             }
         }
         if self.repo_fn_names.contains(n) && !matches!(n, "new" | "from" | "default" | "into") {
-            let s = format!("method `.{n}` at {wh} treated as external (receiver type unknown) although a repo fn named `{n}` exists");
+            let s = format!("{}: method `.{n}` on a non-self receiver treated as external (no type inference) although a repo fn named `{n}` exists", cx.op);
             self.note(cx, s);
         }
         out.push(Node::Ext(format!(".{n}")));
